@@ -1,0 +1,11 @@
+//go:build verif
+
+package cmd
+
+import v2 "github.com/hydraide/hydraide/app/core/hydra/swamp/chronicler/v2"
+
+// VerifCompactSwamp exposes compactSwamp (the per-file body of `hydraidectl compact`) to the
+// C03 correspondence harness (build tag verif only).
+func VerifCompactSwamp(filePath string, threshold float64) *v2.CompactionResult {
+	return compactSwamp(filePath, threshold)
+}
